@@ -34,6 +34,13 @@ CLAIMED["C15"] = ("accepted-value sets computed from the accepting paths of pars
  "Decides the header layout, the exact accepted value set of every validated header field, that no other field influences acceptance, and that the header is re-validated before any page read of every transaction.",
  "DESIGN.md §4 C15")
 
+CLAIMED["C19"] = ("protocol-shape rules on the SSA of the driver (select/send/close/WaitGroup ordering by dominance, path tables of Next, lost-cancel path rule), layering over the call graph",
+ "Decides the structural producer/consumer protocol: guarded sends, single deferred close after the error is published, Close = cancel;wait;read, Next's closed-channel table, no lost cancel, and that rows/columns come only from the locking native API with arguments unchanged. Schedules themselves are not decidable statically.",
+ "DESIGN.md §4 C19")
+CLAIMED["C20"] = ("whole-module write/escape analysis of every package-level variable; type reachability; go-statement census; receiver-only writes of per-handle state",
+ "Decides that no operation writes package-level state (the necessary condition for independent handles to be race-free and result-independent), that no handle is reachable from a global, and that the only goroutine shares state under the ordering DRV-3/4/5 establish.",
+ "DESIGN.md §4 C20")
+
 NA_REASON_NOT_BUILT = "check not built yet in this round; DESIGN.md §4 describes the structural clauses that will be claimed"
 ALL = ["C%02d" % i for i in range(1, 21)]
 
